@@ -51,10 +51,22 @@ def make_case(prop, rng, tier, kind=None):
         stalls = [rng.choice([0, slot / 2, slot / 4]) for _ in range(n)]
     else:
         stalls = [rng.choice([0, 0] + pos) for _ in range(n)]
+    # a producer may hold its granted entry reservation before it puts: not at all / for a lattice delay / until the next kernel
+    # event (e.g. the instant the head reaches the exit), arriving before that instant's events and letting 0-3 of them run first
+    hold_run = rng.random() < 0.3
+    holds = []
+    for _ in range(n):
+        r = rng.random()
+        if not hold_run or r < 0.5:
+            holds.append(["now", 0, 0])
+        elif r < 0.7:
+            holds.append(["lat", rng.choice(pos), 0])
+        else:
+            holds.append(["kernel", 0, rng.choice([0, 0, 1, 1, 2, 3])])
     producers = 2 if rng.random() < 0.25 else 1       # two feeders (e.g. two workers of one machine), each with its own reservation
     gaps2 = [rng.choice(lat) + rng.choice([0, slot]) for _ in range(n)]
     case = {"layer": "A", "kind": kind, "cfg": cfg, "nclients": 3, "ops": [], "final_adv": 0,
-            "meta": {"prop": prop, "lattice": lat_name, "scenario": {"gaps": gaps, "gaps2": gaps2, "producers": producers, "stalls": stalls, "n": n,
+            "meta": {"prop": prop, "lattice": lat_name, "scenario": {"gaps": gaps, "gaps2": gaps2, "producers": producers, "stalls": stalls, "n": n, "holds": holds,
                                                                    "style": style, "cstyle": cstyle}}}
     return case, GenBelt(case["meta"]["scenario"], slot, cap)
 
@@ -75,10 +87,25 @@ class GenBelt:
         self.maxops = 40 + 12 * self.n
         self.horizon = None
         self.slot, self.cap = slot, cap
+        self.plans = {}
+        self.nplans = 0
 
     def name(self, p):
         self.k += 1
         return f"{p}{self.k}"
+
+    def mk_plan(self, h, now):
+        hs = self.sc.get("holds") or [["now", 0, 0]]
+        kind, val, steps = hs[self.nplans % len(hs)]
+        self.nplans += 1
+        pl = {"at": now, "mode": "after", "steps": 0, "stepped": False}
+        if kind == "lat":
+            pl["at"] = now + val
+        elif kind == "kernel":
+            nxt = h.env.peek()
+            if nxt != INF and nxt > now and now + (nxt - now) == nxt:
+                pl.update(at=nxt, mode="before", steps=steps)
+        return pl
 
     def __call__(self, h):
         self.count += 1
@@ -94,8 +121,18 @@ class GenBelt:
             self.consumed += 1
             self.take_at = None
             return ["get", 1, gg[0].name]
-        if gp:
-            t = gp[0]
+        due = None
+        for t in gp:
+            pl = self.plans.get(t.name)
+            if pl is None:
+                pl = self.plans[t.name] = self.mk_plan(h, now)
+            if now >= pl["at"] and due is None:
+                due = (t, pl)
+        if due is not None and due[1]["steps"] and not due[1]["stepped"]:
+            due[1]["stepped"] = True
+            return ["step", due[1]["steps"]]
+        if due is not None:
+            t = due[0]
             self.produced += 1
             if t.c == 0:
                 if self.produced < self.n:
@@ -118,11 +155,11 @@ class GenBelt:
                 if now >= self.take_at:
                     return ["rg", 1, 0, None, self.name("g")]
         # producer(s): one outstanding reservation each
-        out0 = any(t.c == 0 for t in pp)
-        out2 = any(t.c == 2 for t in pp)
-        if not out0 and self.produced + len(pp) < self.n and now >= self.next_put:
+        out0 = any(t.c == 0 for t in pp + gp)
+        out2 = any(t.c == 2 for t in pp + gp)
+        if not out0 and self.produced + len(pp) + len(gp) < self.n and now >= self.next_put:
             return ["rp", 0, 0, self.name("p")]
-        if self.nprod == 2 and not out2 and self.produced + len(pp) < self.n and now >= self.next_put2:
+        if self.nprod == 2 and not out2 and self.produced + len(pp) + len(gp) < self.n and now >= self.next_put2:
             return ["rp", 2, 0, self.name("p")]
         # let time pass: next kernel event or next planned action
         if h.env.peek() <= now:
@@ -134,7 +171,11 @@ class GenBelt:
             cands.append(self.next_put2)
         if self.take_at is not None and self.take_at > now:
             cands.append(self.take_at)
+        held = [pl for t in gp for pl in [self.plans.get(t.name)] if pl is not None and pl["at"] > now]
+        cands += [pl["at"] for pl in held]
         tgt = min(cands)
+        if any(pl["at"] == tgt and pl["mode"] == "before" for pl in held) and tgt != INF:
+            return ["adv", tgt - now, "before"]
         if tgt == INF or tgt <= now:
             if self.horizon is None:
                 self.horizon = 0
